@@ -185,6 +185,60 @@ func envCase(c Case, dir string) string {
 	return ""
 }
 
+// env2Case: two variations; the first defines X (level 6), the second does not. In the second
+// variation X must come from the highest remaining level (or be unset): a variation must not
+// leak into the next one.
+func env2Case(c Case, dir string) string {
+	var y strings.Builder
+	env := []string{"PASS=through"}
+	if has(c.Levels, 1) {
+		env = append(env, "X="+c.val(1, "x"))
+	}
+	if has(c.Levels, 2) {
+		y.WriteString("contexts:\n  c1:\n    env:\n      X: " + c.val(2, "x") + "\n")
+	}
+	y.WriteString("tasks:\n  t1:\n    command: 'echo \"OBS X=$X Z=$Z\"'\n")
+	if has(c.Levels, 2) {
+		y.WriteString("    context: c1\n")
+	}
+	if has(c.Levels, 4) {
+		y.WriteString("    env:\n      X: " + c.val(4, "x") + "\n")
+	}
+	y.WriteString("    variations:\n      - X: " + c.val(6, "x") + "\n      - Z: zz\n      - X: " + c.val(6, "w") + "\n")
+	target := "t1"
+	if c.Stage {
+		target = "p1"
+		y.WriteString("pipelines:\n  p1:\n    - task: t1\n")
+		if has(c.Levels, 5) {
+			y.WriteString("      env:\n        X: " + c.val(5, "x") + "\n")
+		}
+	}
+	os.WriteFile(filepath.Join(dir, "tasks.yaml"), []byte(y.String()), 0o644)
+	r, err := runTaskctl(dir, dir, env, "--output", "raw", target)
+	if err != nil {
+		return "infra: " + err.Error()
+	}
+	if r.code != 0 {
+		return fmt.Sprintf("exit status %d: %s", r.code, firstLines(r.out))
+	}
+	below := ""
+	if m := maxOf(c.Levels); m > 0 {
+		below = c.val(m, "x")
+	}
+	want := []string{"OBS X=" + c.val(6, "x") + " Z=", "OBS X=" + below + " Z=zz", "OBS X=" + c.val(6, "w") + " Z="}
+	var got []string
+	for _, l := range strings.Split(r.out, "\n") {
+		l = strings.TrimRight(l, "\r")
+		if i := strings.Index(l, "OBS "); i >= 0 {
+			got = append(got, l[i:])
+		}
+	}
+	if strings.Join(got, "|") != strings.Join(want, "|") {
+		return fmt.Sprintf("the three variations saw %q, precedence model %q", got, want)
+	}
+	return ""
+}
+
 // ---- C09 dir ----
 
 func dirCase(c Case, dir string) string {
@@ -344,7 +398,9 @@ func undefCase(c Case, dir string) string {
 	y.WriteString("tasks:\n  t1:\n    command:\n")
 	for i := 1; i <= c.K; i++ {
 		if i == c.P {
-			fmt.Fprintf(&y, "      - 'echo c%d{{.nope}} >> %s'\n", i, trace)
+			form := map[string]string{"": "{{.nope}}", "if": "{{if .nope}}x{{end}}", "ifeq": "{{if eq .nope \"a\"}}x{{end}}", "with": "{{with .nope}}x{{end}}",
+				"range": "{{range .nope}}x{{end}}", "default": "{{.nope | default \"d\"}}", "nested": "{{.Args}}{{.nope.deeper}}", "printf": "{{printf \"%v\" .nope}}"}[c.Via]
+			fmt.Fprintf(&y, "      - 'echo c%d%s >> %s'\n", i, form, trace)
 		} else {
 			fmt.Fprintf(&y, "      - 'echo c%d >> %s'\n", i, trace)
 		}
@@ -541,6 +597,8 @@ func runOne(c Case, root string) string {
 	switch c.Kind {
 	case "env":
 		return envCase(c, dir)
+	case "env2":
+		return env2Case(c, dir)
 	case "dir":
 		return dirCase(c, dir)
 	case "vars":
@@ -628,6 +686,20 @@ func main() {
 			for _, s := range subsets(lv) {
 				for _, desc := range []bool{false, true} {
 					if do(Case{Kind: "env", Levels: s, Desc: desc, Stage: stage}) {
+						goto done
+					}
+				}
+			}
+		}
+		// variations do not leak into each other: every subset of the lower levels under a task with three variations
+		for _, stage := range []bool{false, true} {
+			lv := []int{1, 2, 4}
+			if stage {
+				lv = []int{1, 2, 4, 5}
+			}
+			for _, s := range append([][]int{nil}, subsets(lv)...) {
+				for _, desc := range []bool{false, true} {
+					if do(Case{Kind: "env2", Levels: s, Desc: desc, Stage: stage}) {
 						goto done
 					}
 				}
@@ -768,8 +840,10 @@ func main() {
 		for k := 1; k <= 3; k++ {
 			for p := 1; p <= k; p++ {
 				for _, stage := range []bool{false, true} {
-					if do(Case{Kind: "undef", K: k, P: p, Stage: stage}) {
-						goto done
+					for _, form := range []string{"", "if", "ifeq", "with", "range", "default", "nested", "printf"} {
+						if do(Case{Kind: "undef", K: k, P: p, Stage: stage, Via: form}) {
+							goto done
+						}
 					}
 				}
 			}
